@@ -935,6 +935,26 @@ def om2qu_single(om: np.ndarray) -> np.ndarray:
     else:
         qu[3] = 0.5 * np.sqrt(d_almost)
 
+    if a_almost < constants.eps9:
+        # Two-fold rotation: the antisymmetric part vanishes, so the
+        # relative signs of b, c and d follow from the symmetric part
+        if qu[1] != 0:
+            qu[1] = np.abs(qu[1])
+            if om[0, 1] + om[1, 0] < 0:
+                qu[2] = -np.abs(qu[2])
+            else:
+                qu[2] = np.abs(qu[2])
+            if om[0, 2] + om[2, 0] < 0:
+                qu[3] = -np.abs(qu[3])
+            else:
+                qu[3] = np.abs(qu[3])
+        elif qu[2] != 0:
+            qu[2] = np.abs(qu[2])
+            if om[1, 2] + om[2, 1] < 0:
+                qu[3] = -np.abs(qu[3])
+            else:
+                qu[3] = np.abs(qu[3])
+
     norm = np.sqrt(np.sum(np.square(qu)))
     qu = qu / norm
 
